@@ -160,7 +160,10 @@ Scheme expr_mut := Induction for expr Sort Prop
   with block_mut := Induction for block Sort Prop.
 Combined Scheme syntax_mutind from expr_mut, stmt_mut, block_mut.
 
-(* the variable at the root of an assignable path: a, a[i], a.f.g, ... (parse_path / the fix's assignment_root) *)
+(* the variable at the root of an assignable path: a, a[i], a.f.g, ... (parse_path / math_expr.rs assignment_roots).
+   On the forms of this AST assignment_roots yields at most this one name; the forms it follows in addition
+   (`get a`, `(a) or b`: fixes/opassign-through-get-or-const.diff) are not part of the mini-language - they are
+   compared with the binary by vlib/c10.py deep_path_cases (specification only). *)
 Fixpoint root (e : expr) : option name :=
   match e with
   | EVar x => Some x
